@@ -3,6 +3,9 @@ package core
 
 import (
 	"encoding/json"
+	"os"
+	"os/exec"
+	"path/filepath"
 
 	"verif/sim/ev"
 )
@@ -86,4 +89,27 @@ func Decode(b []byte, into *ev.Report) error {
 	o.Notes = p.Notes
 	into.Merge(o)
 	return nil
+}
+
+// PrivateGoCache gives a worker process its own Go build cache under its scratch root, primed
+// with hard links to the base cache the check wrapper filled (standard library, the simulator,
+// the repository): the packages a worker builds from generated programs (tens of MB per batch,
+// never needed again) disappear with the scratch root instead of piling up in a shared cache.
+func PrivateGoCache(root string) string {
+	dir := filepath.Join(root, "gocache")
+	base := os.Getenv("GOCACHE")
+	if base != "" {
+		if _, err := os.Stat(base); err == nil {
+			if exec.Command("cp", "-al", base, dir).Run() == nil {
+				return dir
+			}
+			os.RemoveAll(dir)
+			if exec.Command("cp", "-a", base, dir).Run() == nil {
+				return dir
+			}
+			os.RemoveAll(dir)
+		}
+	}
+	os.MkdirAll(dir, 0o755)
+	return dir
 }
